@@ -865,6 +865,9 @@ def r7_splitter_store(ctx):
         for it in log.iterations:
             pos = [hv for hv, ev in it.mapping if T.TYPES.get(hv) == 'usize']
             okit = okit and len(pos) == 1 and ip.entails(it.state, NOT(hai(pos[0]))) and ip.entails(it.state, eq(it.cur.get(pos[0], pos[0]), T.mk_add(pos[0], I(1))))
+            # the scan covers the whole table: it starts at position 0 of self.list (an active splitter of a block with a
+            # smaller id than the current one must still be found)
+            okit = okit and [ev for hv, ev in it.mapping if hv == pos[0]] == [I(0)]
         ctx.obligation(okit)
         (ctx.ok if okit else ctx.violation)('C04.R7', 'C04.R7/has_active_splitter/scan-continues-only-past-lists-without-active-items', fn.path, fn.site(), None, cfg)
         kinds = set()
